@@ -22,9 +22,31 @@ J = 'logs/programs/journal/Ubuntu22-user-1000x3.journal'
 EVX = 'logs/programs/evtx/Microsoft-Windows-Kernel-PnP%4Configuration.evtx.xz'
 
 
-def sources(ctx, rng, k):
+def tar_sources(ctx):
+    """the journal and the evtx sample as members of .tar archives (tar members are unpacked to temporary files too)"""
+    import io
+    import lzma
+    import tarfile
+    out = []
+    d = os.path.join(ctx.work, 'tarsrc')
+    os.makedirs(d, exist_ok=True)
+    for name, data in (('j.journal', gzip.open(os.path.join(core.REPO, J) + '.gz', 'rb').read()),
+                       ('e.evtx', lzma.open(os.path.join(core.REPO, EVX), 'rb').read())):
+        p = os.path.join(d, name + '.tar')
+        if not os.path.exists(p):
+            with tarfile.open(p, 'w', format=tarfile.USTAR_FORMAT) as tf:
+                ti = tarfile.TarInfo(name)
+                ti.size = len(data)
+                ti.mtime = 1700000000
+                tf.addfile(ti, io.BytesIO(data))
+        out.append(p)
+    return out
+
+
+def sources(ctx, rng, k, tar_only=False):
     base = os.path.join(core.REPO, J)
-    cands = [base + s for s in ('.gz', '.xz', '.bz2', '.lz4')] + [os.path.join(core.REPO, EVX)]
+    tars = tar_sources(ctx)
+    cands = tars if tar_only else [base + s for s in ('.gz', '.xz', '.bz2', '.lz4')] + [os.path.join(core.REPO, EVX)] + tars
     return [rng.pick(cands) for _ in range(k)]
 
 
@@ -32,7 +54,10 @@ def run_s4(args, env, sig_at=None, timeout=60):
     e = dict(os.environ)
     e.update(env)
     t0 = time.time()
-    p = subprocess.Popen([core.S4] + e2e.BASE_ARGS + args, env=e, stdout=subprocess.DEVNULL, stderr=subprocess.PIPE)
+    # SIGINT at its default disposition in the child, whatever this process inherited (a shell that started the check in the background
+    # leaves SIGINT ignored, which would hide a missing handler)
+    p = subprocess.Popen([core.S4] + e2e.BASE_ARGS + args, env=e, stdout=subprocess.DEVNULL, stderr=subprocess.PIPE,
+                         preexec_fn=lambda: signal.signal(signal.SIGINT, signal.SIG_DFL))
     lat = None
     if sig_at is not None:
         time.sleep(sig_at)
@@ -100,7 +125,8 @@ def oracle_and_corr(ctx):
         env = dict(base_env)
         env['S4_VERIF_SLEEP_NTF_CREATED_MS'] = '2500'
         env['S4_VERIF_DELAYS'] = '%d:1500000' % (ctx.seed * 100 + k)
-        srcs = [textlog, textlog2] + sources(ctx, rng, 1)
+        # every second run: the only unpacked source is a TAR member (no compressed journal / evtx in the run; seeded change C18-c)
+        srcs = [textlog, textlog2] + sources(ctx, rng, 1, tar_only=(k % 2 == 1))
         rc, lat, err = run_s4(srcs, env, sig_at=0.4)
         ev += 1
         left = leftovers(tmpdir)
